@@ -99,8 +99,12 @@ def sender_vectors(args):
     rx = Rx()
     out = []
     pairs = [(p_, s_) for p_ in ("http://www.", "https://www.", "http://", "https://")
-             for s_ in (".com/", ".org/", ".edu/", ".net/", ".info/", ".biz/", ".gov/", ".com", ".org", ".edu", ".net", ".info", ".biz", ".gov")]
-    jobs = [("temp", t) for t in temps] + [(None, None)] * n + [("url", pr) for pr in pairs[seed % 16::16]]
+             for s_ in (".com/", ".org/", ".edu/", ".net/", ".info/", ".biz/", ".gov/", ".com", ".org", ".edu", ".net", ".info", ".biz", ".gov",
+                        # the expansion codes in the middle of the URL: a path / query after the domain, a domain suffix
+                        # inside a longer label, two codes in one URL
+                        ".com/ab", ".org/b?c=1", ".community", ".info/p.biz", ".net/x.gov/", ".edu/.edu")]
+    jobs = [("temp", t) for t in temps] + [(None, None)] * n + [("url", pr) for pr in pairs[seed % 16::16]] + \
+        [("temp", t_) for t_ in (-12.34, 56.78)] + [("battery2", b_) for b_ in (7, 201)]
     for (forced, tval) in jobs:
         tx = Ble()
         ble, m = tx.ble, tx.m
@@ -123,11 +127,15 @@ def sender_vectors(args):
                 sent["has_pa"], sent["pa"] = True, ble.pa_level
                 room -= 3
             chunks = []
+            if forced == "battery2":
+                forced, bval = "battery", tval
+            else:
+                bval = None
             kinds = [forced] if forced else rng.sample(["battery", "temp", "url", "raw", "rawsd"], rng.randrange(0, 3))
             for kind in kinds:
                 if kind == "battery":
                     sd = m.BatteryServiceData()
-                    v = rng.randrange(256)
+                    v = rng.randrange(256) if bval is None else bval
                     sd.data = v
                     item = dict(kind="battery", v=v, b=[], pa=0, s=[])
                     c = m.chunk(sd.buffer)
@@ -168,19 +176,24 @@ def sender_vectors(args):
         v = rx.feed(adv["payload"], adv["rfch"])
         v["has_sent"], v["sent"] = True, sent
         out.append(v)
-    # read() order
+    # read() order; the elements are only inspected after all four packets have been polled (available() x 4, then read() x 4):
+    # each must still decode to what ITS packet carried
     rx2 = Rx()
-    macs = []
+    macs, elems = [], []
     for v in out[:4]:
-        rx2.feed(v["payload"], v["rfch"])
+        v2 = rx2.feed(v["payload"], v["rfch"])
         macs.append(v["sent"]["mac"])
-    got = []
+        if v2["queued"]:
+            elems.append(v["elem"])              # (as decoded when the first receiver polled this very packet alone)
+    got, gote = [], []
     while True:
         e = rx2.ble.read()
         if e is None:
             break
         got.append(list(e.mac))
-    out.append(dict(k="order", read_macs=got, arrived_macs=macs[-len(got):] if got else []))
+        gote.append(norm_elem(rx2.b.m, e))
+    out.append(dict(k="order", read_macs=got, arrived_macs=macs[-len(got):] if got else [], read_elems=gote,
+                    arrived_elems=elems[-len(gote):] if gote else []))
     # a node that scans AND advertises: what available() already queued survives the node's own advertisement (a further
     # packet that arrived but was not polled yet is waiting in the radio at that moment)
     if len(out) >= 3 and all(v.get("k") == "rx" and v.get("has_sent") for v in out[:2]):
